@@ -593,7 +593,47 @@ func (e *Exec) freshVal(prefix string, t types.Type) Val {
 	if !strings.HasPrefix(prefix, "phi_") && !strings.HasPrefix(prefix, "dphi") {
 		e.notPrivate(v)
 	}
+	e.wfFields(v, !strings.HasPrefix(prefix, "phi_") && !strings.HasPrefix(prefix, "dphi"), 0)
 	return v
+}
+
+// wfFields: the same well-formedness and not-private facts for the slices, strings and references held
+// in the fields of a struct passed or loaded by value (net.IPNet{IP, Mask}, asn1.BitString{Bytes, ..}).
+func (e *Exec) wfFields(v Val, np bool, depth int) {
+	if v.Typ == nil || depth > 2 {
+		return
+	}
+	st, ok := v.Typ.Underlying().(*types.Struct)
+	if !ok || !strings.HasPrefix(e.s.sortOf(v.Typ), "S_") {
+		return // not a struct, or a struct with a dedicated sort (time.Time is a bit-vector of nanoseconds)
+	}
+	si := e.s.structOf(v.Typ)
+	if si.name != e.s.sortOf(v.Typ) {
+		return
+	}
+	for i := 0; i < st.NumFields(); i++ {
+		ft := st.Field(i).Type()
+		switch ft.Underlying().(type) {
+		case *types.Slice, *types.Struct:
+		case *types.Pointer, *types.Interface, *types.Map:
+			if !np {
+				continue
+			}
+		default:
+			continue
+		}
+		fv := Val{T: fieldOf(si, i, v.T), Typ: ft}
+		if _, isStruct := ft.Underlying().(*types.Struct); isStruct {
+			e.wfFields(fv, np, depth+1)
+			continue
+		}
+		if _, isSlice := ft.Underlying().(*types.Slice); isSlice {
+			e.wf(fv)
+		}
+		if np {
+			e.notPrivate(fv)
+		}
+	}
 }
 
 // wf asserts the well-formedness facts of a freshly introduced value.
@@ -1291,21 +1331,21 @@ func (e *Exec) lookupLocal(f *frame, li *loopInfo, name string, h *Heap, over ma
 			return f.vals[phi], true
 		}
 	}
-	// a variable defined before the loop: last DebugRef dominating the header
+	// a variable defined before the loop: walk the dominator chain upwards from the header; in each block
+	// the last mention wins (a DebugRef of the variable, or the phi that merges its definitions)
 	var best ssa.Value
 	var isAddr bool
-	for _, b := range f.fn.Blocks {
-		if !(b.Dominates(li.header) && b != li.header) {
-			continue
-		}
-		for _, in := range b.Instrs {
-			if d, ok := in.(*ssa.DebugRef); ok {
-				if id, ok := d.Expr.(interface{ String() string }); ok {
-					_ = id
-				}
+	for b := li.header.Idom(); b != nil && best == nil; b = b.Idom() {
+		for i := len(b.Instrs) - 1; i >= 0 && best == nil; i-- {
+			switch d := b.Instrs[i].(type) {
+			case *ssa.DebugRef:
 				if obj := d.Object(); obj != nil && obj.Name() == name {
 					best = d.X
 					isAddr = d.IsAddr
+				}
+			case *ssa.Phi:
+				if d.Comment == name {
+					best = d
 				}
 			}
 		}
